@@ -46,12 +46,17 @@ int main(int argc, char *argv[]) {
         }
       }
     }
-    if (driver.runCatchExceptions(xcmp::DriverAction::EMIT_BINARY, inputFilename, true, "a.bin", false) == 0) {
-      hexsim::Processor processor(std::cin, std::cout, maxCycles);
-      processor.setTracing(trace);
-      processor.load("a.bin");
-      processor.run();
+    if (!inputFilename) {
+      help(argv);
+      return 1;
     }
+    if (driver.runCatchExceptions(xcmp::DriverAction::EMIT_BINARY, inputFilename, true, "a.bin", false) != 0) {
+      return 1;
+    }
+    hexsim::Processor processor(std::cin, std::cout, maxCycles);
+    processor.setTracing(trace);
+    processor.load("a.bin");
+    return processor.run();
   } catch (const std::exception &e) {
     std::cerr << boost::format("Error: %s\n") % e.what();
     return 1;
